@@ -106,7 +106,12 @@ def run_unit(unit, defines=None, vacuity=False, rlimit=None, seed=None, tag='mai
     if rlimit:
         cmd += ['--rlimit', str(rlimit)]
     if only_fn:
-        cmd += ['--verify-function', only_fn, '--verify-root']
+        # developer aid: `fn=name` (root module) or `fn=some_m::name` (function inside the module some_m)
+        m_ = re.match(r'(\w+_m)::(.+)$', only_fn)
+        if m_:
+            cmd += ['--verify-function', m_.group(2), '--verify-only-module', m_.group(1)]
+        else:
+            cmd += ['--verify-function', only_fn, '--verify-root']
     if seed:
         cmd += ['-V', 'rand-seed=%d' % seed] if False else []
     res['cmd'] = ' '.join(cmd)
